@@ -797,10 +797,7 @@ pub fn writable_history(rng: &mut impl Rng, specs: Vec<ArchiveSpec>) -> History 
         few.push(rng.random_range(0..total) as u16);
     }
     let pick = |rng: &mut _, few: &[u16]| NameRef::Pool(few[Rng::random_range(rng, 0..few.len())]);
-    // V3/V4: in-place modification writes placeholder HET/BET tables (C06 finding `hetbet:*`); the
-    // focused histories stay on V1/V2 unless VERIF_C19_WRITABLE_V34=1 (the general generator and the
-    // grid keep exercising create2 with V3/V4)
-    let versions: &[u32] = if std::env::var("VERIF_C19_WRITABLE_V34").map(|v| v == "1").unwrap_or(false) { &[1, 1, 2, 2, 3, 4] } else { &[1, 1, 2, 2, 1, 2] };
+    let versions: &[u32] = &[1, 1, 2, 2, 3, 4];
     let mut ops = vec![create2(0, versions[rng.random_range(0..6)], rng.random_range(0..4) != 0)];
     let n = rng.random_range(8..60);
     for _ in 0..n {
